@@ -55,9 +55,12 @@ Q_Graph == {"graph"}
 Q_Subset == {"subset"}
 Q_Pair == {"add", "eq", "concat"}
 Q_Conv == {"conv"}
+Q_Cat3 == {"concatn"}
+Q_HistCat == {"concatn-last"}
 Q_Bounds == {"bounds"}
 Q_Yields == {"yields"}
-Q_HistEnd == {"graph"}
+Q_HistEnd == {"graph", "concatn-last"}
+Q_SubYld == {"subset", "yields"}
 G_None == {}
 G_Q == {0, 2}
 G_T == {0, 1, 3}
